@@ -1,6 +1,8 @@
 module github.com/segmentio/kafka-go
 
-go 1.23
+go 1.23.0
+
+toolchain go1.23.5
 
 require (
 	github.com/klauspost/compress v1.15.9
